@@ -12,7 +12,7 @@ accepted forms (three-valued: accepted / a different pure function of the
 same operands = violation / not recognised = analysis incomplete)."""
 import ast
 
-from ..core import base_name, call_name, params, u, walk_local
+from ..core import base_name, call_name, const_value, params, u, walk_local
 from ..patterns import calls_in, check_no_arg_mutation, finfo
 from .msm_common import (BU, TM, LM, Once, _distinct, _sigs, abbreviate,
                          check_spectrum, closed_over, norm, paths_or_missing,
@@ -39,8 +39,15 @@ EXPLANATION = (
     'container-dependent operation (axis-less .sum(): bsr; `/ int`: lil, dok) is '
     'applied to a matrix still in the caller\'s container, and the sparse row '
     'sums are not formed in the float32 that asfptype() gives small integer '
-    'dtypes. Stochasticity/stationarity/'
-    'detailed balance as numerical identities are not decided.')
+    'dtypes; (D7, reversible estimator) the pair returned is (X / column of row sums of X, R / sum(R)) for a matrix X that starts '
+    'symmetric by construction and whose off-diagonal cells are only stored into in mirrored pairs with one value, R starts as rowsum(X) '
+    'and every store into a cell of row p comes with R[p] += new - old (old read before the store, the two cells of a pair are different '
+    'cells), every value stored into X is >= 0 and finite under the sign abstraction with the invariants C >= 0, rowsum(C)[p] >= C[p, q], '
+    'X >= 0, rowsum(X)[p] >= X[p, q] (roots of provably non-negative radicands, provably non-zero divisors), and no assert of the '
+    'estimator contradicts those invariants or the row-stochasticity of T; (D6, dispatch) for dense and sparse T of every size class the '
+    'call eq_probs makes into eigenspectrum, with its constant arguments substituted, reaches a solver that accepts T and never a raise. '
+    'Stochasticity/stationarity/detailed balance as numerical identities, and that the pair update solves the Prinz quadratic '
+    '(C12.D3.reference), are not decided here.')
 
 PRIOR = 'PRIOR__'        # symbol for _apply_prior_counts(C, prior_counts)
 ESTIMATORS = ('_prinz_mle_py', '_prinz_mle', '_mle_prinz_dense')
@@ -1169,6 +1176,1316 @@ def d4_estimator(ck, rel, qual, required):
         ck.floor(rule, n, 1, 'division by a count deficit rowsum(C)[p] - C[p, q] in %s' % qual)
 
 
+# ---------------------------------------------------------------------------
+# D7 (estimator): what the reversible iteration hands back
+#
+# "Prinz iteration returns X / rowsum(X) and rowsum(X) / sum(X), X symmetric."
+# With X symmetric and non-negative, T = X / rowsum(X)[:, None] is row stochastic,
+# pi = rowsum(X) / sum(X) satisfies pi_i T_ij = X_ij / sum(X) = pi_j T_ji (detailed
+# balance) and hence pi T = pi.  The necessary structural conditions, each decided
+# on roles (the matrix that is normalised in the return value, the vector whose
+# normalisation is returned as populations), never on the names of locals:
+#   result        the pair returned is (X / column of row sums of X, R / total of R)
+#   symmetric     X starts as a matrix that is symmetric by construction and every
+#                 store into an off-diagonal cell (p, q) is paired with a store of
+#                 the same value into (q, p)
+#   running sums  R starts as the row sums of X and every store into a cell of row p
+#                 is accompanied by R[p] += new - old  (old read before the store)
+#   admissible    no assert on the way rejects what the quantifier admits (positive
+#                 row sums) or what the construction guarantees (rows of T sum to 1)
+#   non-negative  every value stored into X is provably >= 0 and finite under the
+#                 invariants  C >= 0, rowsum(C)[p] >= C[p, q], X >= 0,
+#                 R[p] >= X[p, q]  (sign abstraction; a root is taken of a provably
+#                 non-negative quantity, a divisor is provably non-zero).
+
+def _int_of(e):
+    v = const_value(e)
+    return v if isinstance(v, int) and not isinstance(v, bool) else None
+
+
+def _plain_index(i):
+    return not isinstance(i, (ast.Slice, ast.Starred, ast.Tuple)) and not (isinstance(i, ast.Constant) and (i.value is None or i.value is Ellipsis))
+
+
+def _cell(t, base=None):
+    """(base name, p, q) for a plain two-index subscript B[p, q] of a Name."""
+    if isinstance(t, ast.Subscript) and isinstance(t.value, ast.Name) and isinstance(t.slice, ast.Tuple) and len(t.slice.elts) == 2 \
+            and all(_plain_index(i) for i in t.slice.elts) and (base is None or t.value.id == base):
+        return t.value.id, u(t.slice.elts[0]), u(t.slice.elts[1])
+    return None
+
+
+def _elem(t, base=None):
+    """(base name, p) for a plain one-index subscript B[p] of a Name."""
+    if isinstance(t, ast.Subscript) and isinstance(t.value, ast.Name) and _plain_index(t.slice) and (base is None or t.value.id == base):
+        return t.value.id, u(t.slice)
+    return None
+
+
+def _pm(pats, node, binds=None):
+    from ..match import match
+    for p in ([pats] if isinstance(pats, str) else pats):
+        b = match(p, node, binds)
+        if b is not None:
+            return b
+    return None
+
+
+def _strip_scalar_index(e):
+    """x[..., None] / x[None] / float(x) of a 0-d total: the same number."""
+    while True:
+        if isinstance(e, ast.Subscript):
+            idx = e.slice.elts if isinstance(e.slice, ast.Tuple) else [e.slice]
+            if idx and all(isinstance(i, ast.Constant) and (i.value is None or i.value is Ellipsis) for i in idx):
+                e = e.value
+                continue
+        if isinstance(e, ast.Call) and call_name(e) in ('float', 'np.float64', 'np.double') and len(e.args) == 1 and not e.keywords:
+            e = e.args[0]
+            continue
+        return e
+
+
+_RS = ['_X.sum(axis=_A)', '_X.sum(_A)']
+_COL_OF = ['%s.reshape(_N, 1)', '%s.reshape((_N, 1))', '%s[:, None]', 'np.expand_dims(%s, 1)', 'np.expand_dims(%s, axis=1)',
+           'np.expand_dims(%s, -1)', 'np.expand_dims(%s, axis=-1)', '%s.reshape(_N, 1).astype(float)']
+_T_FORMS = ['_X / ' + c % r for r in _RS for c in _COL_OF] + \
+           ['np.divide(_X, %s)' % (c % r) for r in _RS for c in _COL_OF] + \
+           ['_X / _X.sum(axis=_A, keepdims=True)', '_X / _X.sum(_A, keepdims=True)', 'np.divide(_X, _X.sum(axis=_A, keepdims=True))'] + \
+           ['(_X.T / %s).T' % r for r in _RS] + ['_X * (1 / %s)' % (c % r) for r in _RS for c in _COL_OF] + \
+           ['_X * (1.0 / %s)' % (c % r) for r in _RS for c in _COL_OF]
+_T_BY_R = ['_X / ' + c % '_R' for c in _COL_OF] + ['(_X.T / _R).T']
+
+
+_COLS = [c % r for r in _RS for c in _COL_OF] + ['_X.sum(axis=_A, keepdims=True)', '_X.sum(_A, keepdims=True)']
+_VECS = _RS + ['np.asarray(%s)' % r for r in _RS] + ['%s.flatten()' % r for r in _RS] + ['%s.ravel()' % r for r in _RS]
+
+
+def _wrong_quotient(e, cols, scope, own=()):
+    """`e` is positively a DIFFERENT quotient in the role of T (cols: the
+    column-of-row-sums forms) or of pi (cols None): the reciprocal of the
+    accepted form, a row-vector broadcast, or sums taken of another matrix
+    than the one that is divided.  Anything else is not recognised (False)."""
+    if isinstance(e, ast.Call) and call_name(e) in ('np.divide', 'np.true_divide') and len(e.args) == 2 and not e.keywords:
+        num, den = e.args
+    elif isinstance(e, ast.BinOp) and isinstance(e.op, ast.Div):
+        num, den = e.left, e.right
+    else:
+        return False
+    if not closed_over(e, scope):
+        return False
+    if cols is not None:
+        for a, b, swapped in ((num, den, False), (den, num, True)):
+            if not isinstance(a, ast.Name):
+                continue
+            col = _pm(cols, b)
+            row = _pm(_RS, b)
+            if col is not None and isinstance(col['_X'], ast.Name):
+                if swapped or col['_X'].id != a.id:
+                    return True             # column of sums / X, or X / sums of another matrix
+            elif row is not None and isinstance(row['_X'], ast.Name):
+                return True                 # (n, n) / (n,): the sums are broadcast along the rows (scales columns)
+        return False
+    num, den = _strip_scalar_index(num), _strip_scalar_index(den)
+    for a, b, swapped in ((num, den, False), (den, num, True)):
+        vec = a if isinstance(a, ast.Name) else None
+        rs = _pm(_VECS, a)
+        tot = _pm(['_V.sum()', '_V.sum(axis=None)', '_V.sum(axis=0)', '_V.sum(0)'], b)
+        if tot is None:
+            continue
+        if vec is not None and swapped and u(tot['_V']) == vec.id:
+            return True                     # total / vector
+        if rs is not None and isinstance(rs['_X'], ast.Name) and (swapped or (rs['_X'].id not in own and u(tot['_V']) in (u(a), rs['_X'].id))):
+            return True                     # row sums of a matrix that is not the one normalised into T (the caller excluded X itself)
+    return False
+
+
+class _Estimator:
+    """Roles of the reversible estimator, located from its return value."""
+
+    def __init__(self, ck, mod, fn, qual):
+        self.ck, self.mod, self.fn, self.qual = ck, mod, fn, qual
+        self.fi = finfo(mod, fn)
+        self.P = params(fn)[0]
+        self.o = Once(ck, mod, fn, qual)
+        self.X = self.R = None          # names: symmetric state matrix, running row sums
+        self.R_aux = None               # row sums maintained in the sweep although the populations are recomputed
+        self.ret = None
+        self.T_name = self.pi_name = None
+        self.two = sorted({c[0] for _, t in self._stores() for c in [_cell(t)] if c})
+        self.one = sorted({c[0] for _, t in self._stores() for c in [_elem(t)] if c})
+
+    def _stores(self):
+        from ..patterns import subscript_stores
+        return subscript_stores(self.fn)
+
+    def stores(self, base):
+        return [(s, t) for s, t in self._stores() if isinstance(t.value, ast.Name) and t.value.id == base]
+
+    def loop_of(self, node):
+        """Innermost for/while statement around `node` (None outside loops)."""
+        p = self.mod.parent.get(node)
+        while p is not None and p is not self.fn:
+            if isinstance(p, (ast.For, ast.While)):
+                return p
+            p = self.mod.parent.get(p)
+        return None
+
+    def before(self, a, b):
+        """Statement `a` can execute before `b` within one pass through their
+        innermost common loop body (or, outside loops, on some path)."""
+        if a is b:
+            return False
+        avoid = []
+        p = self.loop_of(a)
+        while p is not None:
+            if self.fi._within(b, p):
+                avoid.append(p)
+            p = self.loop_of(p)
+        return self.fi.cfg.reachable(a, b, avoiding=avoid)
+
+    def same_in_pass(self, a, b):
+        """Two uses of one name see the same binding within one pass through
+        the loop body that holds them: same reaching definitions, one use
+        dominates the other and no definition can execute in between."""
+        fi = self.fi
+        if not (isinstance(a, ast.Name) and isinstance(b, ast.Name)) or a.id != b.id:
+            return False
+        try:
+            da, db = fi.defs_of_use(a), fi.defs_of_use(b)
+        except Exception:
+            return False
+        if not da or da != db or 'UNBOUND' in da:
+            return False
+        sa, sb = fi.stmt(a), fi.stmt(b)
+        if sa is sb:
+            return True
+        if fi.cfg.dominates(sb, sa):
+            sa, sb = sb, sa
+        elif not fi.cfg.dominates(sa, sb):
+            return False
+        for d in da:
+            if d == 'PARAM':
+                continue
+            if d is sa or d is sb or (self.before(sa, d) and self.before(d, sb)):
+                return False
+        return True
+
+
+def _d7_result(est):
+    """Locate X and R from the returned pair and decide its form."""
+    rule = 'C04.D6.mle-result'
+    o, fi = est.o, est.fi
+    from ..patterns import returns_of
+    rets = [r for r in returns_of(est.fn)]
+    n = 0
+    state = set(est.two) | set(est.one)
+    for r in rets:
+        v = r.value
+        if not (isinstance(v, ast.Tuple) and len(v.elts) == 2):
+            o.missing(rule, '%s does not return a pair (T, pi): %s' % (est.qual, u(v)[:100] if v is not None else 'None'))
+            continue
+        n += 1
+        Te, pe = fi.expand(v.elts[0]), fi.expand(v.elts[1])
+        # --- T
+        b = _pm(_T_FORMS, Te)
+        byR = None
+        if b is None:
+            byR = _pm(_T_BY_R, Te)
+        if b is not None and isinstance(b['_X'], ast.Name) and _int_of(b['_A']) in (1, -1, 0, -2):
+            est.X = b['_X'].id
+            ax = _int_of(b['_A'])
+            o.check(True, rule, v.elts[0], 'T = X / rowsum(X) as a column%s' % (
+                '' if ax in (1, -1) else ' (column sums: equal to the row sums because X is symmetric, see C04.D3.mle-symmetric)'), '',
+                construct='%s: T = X / rowsum(X)[:, None]' % est.qual)
+        elif byR is not None and isinstance(byR['_X'], ast.Name) and isinstance(byR['_R'], ast.Name):
+            est.X, est.R = byR['_X'].id, byR['_R'].id
+            o.check(True, rule, v.elts[0], 'T = X / R[:, None] with R the maintained row sums of X (see C04.D3.mle-running-sums)', '',
+                    construct='%s: T = X / rowsum(X)[:, None]' % est.qual)
+        else:
+            involved = {x.id for x in ast.walk(Te) if isinstance(x, ast.Name)} & set(est.two)
+            verdict = ('near', 1, '_X / _X.sum(axis=1)[:, None]') if _wrong_quotient(Te, _COLS, state | {est.P}) else ('far', 9, None)
+            o.decide(verdict, rule, v.elts[0], '',
+                     'the first result of %s must be the symmetric matrix divided by the COLUMN vector of its own row sums, '
+                     'X / X.sum(axis=1)[:, None] (rows then sum to one); here it is `%s`' % (est.qual, u(Te)[:120]),
+                     construct='%s: T = X / rowsum(X)[:, None]' % est.qual if verdict[0] == 'near' else None)
+            if len(involved) == 1:
+                est.X = sorted(involved)[0]
+        # --- pi
+        num = den = None
+        if isinstance(pe, ast.BinOp) and isinstance(pe.op, ast.Div):
+            num, den = pe.left, _strip_scalar_index(pe.right)
+        elif isinstance(pe, ast.Call) and call_name(pe) in ('np.divide', 'np.true_divide') and len(pe.args) == 2 and not pe.keywords:
+            num, den = pe.args[0], _strip_scalar_index(pe.args[1])
+        ok = False
+        if num is not None:
+            num = _strip_scalar_index(num)
+            total_of = _pm(['_V.sum()', '_V.sum(axis=None)', '_V.sum(axis=0)', '_V.sum(0)'], den)
+            if isinstance(num, ast.Name) and total_of is not None and isinstance(total_of['_V'], ast.Name):
+                tv = total_of['_V'].id
+                axis_less = _pm(['_V.sum()', '_V.sum(axis=None)'], den) is not None
+                if tv == num.id or (axis_less and est.X is not None and tv == est.X):
+                    ok = True
+                    if est.R is not None and est.R != num.id:
+                        o.missing(rule, 'T is normalised by `%s` but the populations come from `%s`' % (est.R, num.id))
+                    est.R = num.id
+            fresh = _pm(_RS, num)
+            if not ok and fresh is not None and isinstance(fresh['_X'], ast.Name) and _int_of(fresh['_A']) in (1, -1, 0, -2) and \
+                    total_of is not None and u(total_of['_V']) in (u(num), fresh['_X'].id) and (est.X is None or fresh['_X'].id == est.X):
+                ok = True           # populations recomputed from X itself: no running sums involved
+        if ok:
+            o.check(True, rule, v.elts[1], 'pi = R / sum(R) with R the row sums of X', '', construct='%s: pi = rowsum(X) / sum(X)' % est.qual)
+        else:
+            involved = {x.id for x in ast.walk(pe) if isinstance(x, ast.Name)} & (state | {est.P})
+            verdict = ('near', 1, '_R / _R.sum()') if _wrong_quotient(pe, None, state | {est.P}, own=est.two) else ('far', 9, None)
+            o.decide(verdict, rule, v.elts[1], '',
+                     'the second result of %s must be the row sums of the symmetric matrix divided by their total, R / R.sum() '
+                     '(the stationary vector of T = X / rowsum(X)); here it is `%s`' % (est.qual, u(pe)[:120]),
+                     construct='%s: pi = rowsum(X) / sum(X)' % est.qual if verdict[0] == 'near' else None)
+            one = involved & set(est.one)
+            if est.R is None and len(one) == 1:
+                est.R = sorted(one)[0]
+        est.ret = r
+        est.T_name = v.elts[0].id if isinstance(v.elts[0], ast.Name) else None
+        est.pi_name = v.elts[1].id if isinstance(v.elts[1], ast.Name) else None
+    est.ck.floor(rule, n, 1, 'return of a pair (T, pi) in %s' % est.qual)
+    if est.R is None and est.X is not None and est.ret is not None:
+        # populations recomputed from X: a vector that is still maintained as row sums of X inside the sweep
+        for cand in est.one:
+            vals = [fi.def_value(d, cand) if d not in ('PARAM', 'UNBOUND') else None for d in fi.rd.defs_at(est.ret, cand)]
+            if vals and all(v is not None for v in vals):
+                bs = [_pm(_RS, fi.expand(v)) for v in vals]
+                if all(b is not None and isinstance(b['_X'], ast.Name) and b['_X'].id == est.X for b in bs):
+                    est.R_aux = cand
+                    break
+
+
+_SYM_FORMS = ['_A + _A.T', '_A.T + _A', '_A + _A.transpose()', '_A.transpose() + _A', 'np.add(_A, _A.T)', 'np.add(_A.T, _A)',
+              '_A + np.transpose(_A)', 'np.transpose(_A) + _A', '_A + _A.T.copy()', '_A.T.copy() + _A', '_A @ _A.T', '_A.T @ _A',
+              'np.maximum(_A, _A.T)', 'np.minimum(_A, _A.T)']
+_SYM_FORMS += [w % f for f in list(_SYM_FORMS) for w in ('(%s) / _K', '(%s) * _K', '_K * (%s)')]
+
+
+def _symmetric_value(est, e, st, depth=4):
+    """Is the value of `e` (evaluated at statement `st`) a matrix that is
+    symmetric by construction?  True / False (a pure function of the counts
+    that is not of a symmetric form) / None (not recognised)."""
+    fi = est.fi
+    e = strip_conversions(e)
+    if isinstance(e, ast.Name):
+        if depth <= 0 or st is None:
+            return None
+        try:
+            defs = fi.rd.defs_at(st, e.id)
+        except Exception:
+            return None
+        if not defs or 'UNBOUND' in defs:
+            return None
+        out = []
+        for d in defs:
+            if d == 'PARAM':
+                out.append(False if e.id == est.P else None)
+                continue
+            v = fi.def_value(d, e.id)
+            out.append(None if v is None else _symmetric_value(est, fi.expand(v), d, depth - 1))
+        return True if all(x is True for x in out) else False if any(x is False for x in out) and not any(x is None for x in out) else None
+    b = _pm(_SYM_FORMS, e)
+    if b is not None and ('_K' not in b or isinstance(b['_K'], ast.Constant)):
+        return True
+    if isinstance(e, ast.Call) and call_name(e) in ('np.zeros_like', 'np.eye', 'np.identity'):
+        return True
+    if _pm(['_A - _A.T', '_A.T - _A'], e) is not None:
+        return False
+    transposes = any((isinstance(x, ast.Attribute) and x.attr in ('T', 'transpose', 'swapaxes', 'mT')) or
+                     (isinstance(x, ast.Call) and (call_name(x) or '').split('.')[-1] in ('transpose', 'swapaxes', 'maximum', 'minimum', 'einsum', 'dot', 'matmul'))
+                     or (isinstance(x, ast.BinOp) and isinstance(x.op, ast.MatMult)) for x in ast.walk(e))
+    if not transposes and closed_over(e, {est.P}) and any(isinstance(x, ast.Name) and x.id == est.P for x in ast.walk(e)):
+        return False            # an element-wise function of the counts alone: as asymmetric as they are
+    return None
+
+
+def _same_stored_value(est, s1, t1, s2, t2):
+    """Do the two cell stores put the same number into their cells?
+    True / None (cannot tell)."""
+    fi = est.fi
+    if s1 is s2:
+        return True                 # X[p, q] = X[q, p] = v
+    if not (isinstance(s1, ast.Assign) and isinstance(s2, ast.Assign)):
+        if isinstance(s1, ast.AugAssign) and isinstance(s2, ast.AugAssign) and type(s1.op) is type(s2.op):
+            v1, v2 = s1.value, s2.value
+        else:
+            return None
+    else:
+        v1, v2 = s1.value, s2.value
+    if isinstance(v1, ast.Name) and isinstance(v2, ast.Name):
+        return True if est.same_in_pass(v1, v2) else None
+    for (sa, ta, va), (sb, tb, vb) in (((s1, t1, v1), (s2, t2, v2)), ((s2, t2, v2), (s1, t1, v1))):
+        # the second store copies the cell the first one just wrote
+        if isinstance(sa, ast.Assign) and isinstance(sb, ast.Assign) and u(vb) == u(ta) and fi.cfg.dominates(sa, sb):
+            return True
+    try:
+        x1, x2 = fi.expand(v1), fi.expand(v2)
+    except Exception:
+        return None
+    state = set(est.two) | set(est.one)
+    if u(x1) == u(x2) and not any(isinstance(n, ast.Name) and n.id in state for n in ast.walk(x1)):
+        return True
+    return None
+
+
+def _same_region(est, a, b):
+    cfg = est.fi.cfg
+    return a is b or (cfg.dominates(a, b) and cfg.postdominates(b, a)) or (cfg.dominates(b, a) and cfg.postdominates(a, b))
+
+
+def _d7_symmetric(est):
+    rule = 'C04.D3.mle-symmetric'
+    o, fi, X = est.o, est.fi, est.X
+    q = est.qual
+    for d in sorted(fi.rd.defs_at(est.ret, X), key=lambda d: getattr(d, 'lineno', 0)):
+        if d == 'UNBOUND':
+            continue
+        v = fi.def_value(d, X) if d != 'PARAM' else None
+        sv = False if d == 'PARAM' else (None if v is None else _symmetric_value(est, fi.expand(v), d))
+        if sv is None:
+            o.missing(rule, 'the matrix `%s` that %s normalises is bound in a form the rule does not recognise as symmetric: %s'
+                      % (X, q, u(d)[:100] if d != 'PARAM' else 'parameter'))
+            continue
+        o.check(sv, rule, d if d != 'PARAM' else None, 'the iterate starts as a matrix that is symmetric by construction (C + C.T)',
+                '%s normalises `%s`, which is bound to `%s`: not symmetric for asymmetric counts. Detailed balance of (T, pi) = '
+                '(X / rowsum(X), rowsum(X) / sum(X)) needs X symmetric, and the update formulas read X[p, q] for X[q, p] and rely on '
+                'rowsum(X)[q] >= X[p, q] (with X = C + C the product (R[i] - X[i, j]) * (R[j] - X[i, j]) turns negative and the '
+                'estimator fails its own assertion for e.g. [[1, 10], [1, 1]])' % (q, X, u(v)[:80] if v is not None else 'the parameter'),
+                construct='%s: the iterate starts symmetric' % q if sv else '%s: iterate bound to a non-symmetric function of the counts' % q)
+    cells, odd = [], 0
+    for s, t in est.stores(X):
+        c = _cell(t, X)
+        if c is None:
+            odd += 1
+            o.missing(rule, 'store into the symmetric matrix `%s` that is not a single cell: %s' % (X, u(s)[:100]))
+            continue
+        cells.append((s, t, c[1], c[2]))
+    n = 0
+    for s, t, p, r in cells:
+        if p == r:
+            continue
+        n += 1
+        mirrors = [(s2, t2) for s2, t2, p2, r2 in cells if p2 == r and r2 == p]
+        near = [m for m in mirrors if _same_region(est, s, m[0])]
+        if not mirrors and not odd:
+            o.check(False, rule, s, '',
+                    '%s stores into the off-diagonal cell %s[%s, %s] but never into its mirror %s[%s, %s]: the matrix is no longer '
+                    'symmetric, so T = X / rowsum(X) and pi = rowsum(X) / sum(X) violate detailed balance and pi is not stationary under T'
+                    % (q, X, p, r, X, r, p), construct='%s: off-diagonal store without its mirror store' % q)
+            continue
+        if not near:
+            o.missing(rule, 'mirror store of %s (the cell [%s, %s]) is not in the same straight-line region' % (u(s)[:60], r, p))
+            continue
+        same = [m for m in near if _same_stored_value(est, s, t, m[0], m[1])]
+        if same:
+            o.check(True, rule, s, 'each off-diagonal store is paired with the store of the same value into the mirror cell', '',
+                    construct='%s: paired stores into [p, q] and [q, p]' % q)
+        else:
+            o.missing(rule, 'cannot show that %s and its mirror store %s put the same value into the two cells' % (u(s)[:60], u(near[0][0])[:60]))
+    return cells
+
+
+def _leaf_kind(est, leaf):
+    """('read', p, q) a cell of X read now; ('saved', p, q, site) a name that
+    holds a cell of X read at `site` (X may have been stored into since);
+    ('value', node) anything else."""
+    fi, X = est.fi, est.X
+    c = _cell(leaf, X)
+    if c is not None:
+        return ('read', c[1], c[2])
+    if isinstance(leaf, ast.Name):
+        tv = fi.temp_value(leaf)
+        c = _cell(tv, X) if tv is not None else None
+        if c is not None:
+            return ('read', c[1], c[2])
+        try:
+            defs = fi.defs_of_use(leaf)
+        except Exception:
+            defs = set()
+        if len(defs) == 1:
+            site = next(iter(defs))
+            if site not in ('PARAM', 'UNBOUND'):
+                dv = fi.def_value(site, leaf.id)
+                c = _cell(dv, X) if dv is not None else None
+                if c is not None:
+                    return ('saved', c[1], c[2], site)
+    return ('value', leaf)
+
+
+def _value_equal(est, leaf, stored):
+    fi = est.fi
+    if isinstance(leaf, ast.Name) and isinstance(stored, ast.Name):
+        return est.same_in_pass(leaf, stored)
+    try:
+        return u(fi.expand(leaf)) == u(fi.expand(stored))
+    except Exception:
+        return False
+
+
+def _distinct_indices(est, a, b, at):
+    """Can the loop indices named `a` and `b` be equal at statement `at`?
+    True: provably different; False: the range of one starts AT the other;
+    None: not recognised."""
+    par = est.mod.parent
+    from ..cfg import Assume
+    from ..patterns import Cmp, conjuncts
+    for g in est.fi.cfg.nodes:
+        if isinstance(g, Assume) and est.fi.cfg.dominates(g, at):
+            for c in (conjuncts(g.test, g.polarity) or []):
+                if isinstance(c, Cmp) and {u(c.lhs), u(c.rhs)} == {a, b} and c.op in (ast.NotEq, ast.Lt, ast.Gt):
+                    return True
+    verdict = None
+    p = par.get(at)
+    while p is not None and p is not est.fn:
+        if isinstance(p, ast.For):
+            tn = [x.id for x in ast.walk(p.target) if isinstance(x, ast.Name)]
+            it = p.iter
+            if isinstance(p.target, ast.Tuple) and set(tn) == {a, b} and isinstance(it, ast.Call) and \
+                    (call_name(it) or '').split('.')[-1] == 'combinations' and len(it.args) == 2 and _int_of(it.args[1]) == 2:
+                return True
+            for x, y in ((a, b), (b, a)):
+                if tn == [x] and isinstance(it, ast.Call) and call_name(it) == 'range' and not it.keywords:
+                    args = it.args
+                    if len(args) >= 3 and (_int_of(args[2]) or 0) < 1:
+                        continue
+                    lo = args[0] if len(args) >= 2 else None
+                    hi = args[1] if len(args) >= 2 else args[0]
+                    if u(hi) == y:
+                        return True                         # x < y
+                    if lo is not None:
+                        if u(lo) == y:
+                            verdict = False                 # x starts at y
+                        elif isinstance(lo, ast.BinOp) and isinstance(lo.op, ast.Add):
+                            for l, r in ((lo.left, lo.right), (lo.right, lo.left)):
+                                if u(l) == y and (_int_of(r) or 0) >= 1:
+                                    return True             # x >= y + k, k >= 1
+        p = par.get(p)
+    return verdict
+
+
+def _d7_running(est, cells):
+    rule = 'C04.D3.mle-running-sums'
+    o, fi, X, R, q = est.o, est.fi, est.X, est.R, est.qual
+    if R is None:
+        return
+    state = set(est.two) | set(est.one)
+    odd_defs = 0
+    rederive = []
+    for d in sorted(fi.rd.defs_at(est.ret, R), key=lambda d: getattr(d, 'lineno', 0)):
+        if d == 'UNBOUND':
+            continue
+        v = fi.def_value(d, R) if d != 'PARAM' else None
+        if v is None:
+            odd_defs += 1
+            o.missing(rule, 'the vector `%s` that %s returns (normalised) as populations is bound in a form the rule does not read: %s'
+                      % (R, q, u(d)[:100] if d != 'PARAM' else 'parameter'))
+            continue
+        e = fi.expand(v)
+        while True:
+            e2 = strip_conversions(e)
+            if isinstance(e2, ast.Call) and isinstance(e2.func, ast.Attribute) and e2.func.attr in _ROWSUM_WRAP and not e2.args and not e2.keywords:
+                e2 = e2.func.value
+            elif isinstance(e2, ast.Attribute) and e2.attr == 'A1':
+                e2 = e2.value
+            if e2 is e:
+                break
+            e = e2
+        b = _pm(_RS, e)
+        if b is not None and isinstance(b['_X'], ast.Name) and b['_X'].id == X and _int_of(b['_A']) in (1, -1, 0, -2):
+            rederive.append(d)
+            o.check(True, rule, d, 'the running sums start as the row sums of the symmetric matrix', '',
+                    construct='%s: running sums (re)derived as rowsum(X)' % q)
+        elif b is not None and isinstance(b['_X'], ast.Name) and b['_X'].id != X and closed_over(e, state | {est.P}):
+            o.check(False, rule, d, '',
+                    'the vector `%s` that %s returns (normalised) as populations is bound to `%s`, not to the row sums of the matrix `%s` '
+                    'that is normalised into T: pi = R / sum(R) is stationary under T = X / rowsum(X) only for R = rowsum(X)'
+                    % (R, q, u(e)[:80], X), construct='%s: running sums not derived from the symmetric matrix' % q)
+        else:
+            odd_defs += 1
+            o.missing(rule, 'definition of the running sums `%s` not recognised: %s' % (R, u(d)[:100]))
+    # --- every store into a cell of row p comes with R[p] += new - old
+    acc, unrec = [], 0              # acc: (row, {cells}, stmt)
+    xs = [(s, p, r) for s, _, p, r in cells]
+
+    def stores_of(cellset):
+        return [s for s, p, r in xs if (p, r) in cellset]
+    for s, t in est.stores(R):
+        el = _elem(t, R)
+        leaves = None
+        if el is not None:
+            if isinstance(s, ast.AugAssign) and isinstance(s.op, (ast.Add, ast.Sub)):
+                leaves = _signed_leaves(s.value, 1 if isinstance(s.op, ast.Add) else -1)
+            elif isinstance(s, ast.Assign) and len(s.targets) == 1:
+                leaves = _signed_leaves(s.value)
+                own = [k for k, (sg, x) in enumerate(leaves) if sg > 0 and _elem(x, R) is not None and _elem(x, R)[1] == el[1]]
+                if len(own) == 1:
+                    leaves.pop(own[0])
+                else:
+                    leaves = None
+        plus = [x for sg, x in (leaves or []) if sg > 0]
+        minus = [x for sg, x in (leaves or []) if sg < 0]
+        if leaves is None or len(plus) != 1 or len(minus) != 1:
+            unrec += 1
+            o.missing(rule, 'update of the running sums not of the form %s[p] += new - old: %s' % (R, u(s)[:100]))
+            continue
+        row = el[1]
+        kp, km = _leaf_kind(est, plus[0]), _leaf_kind(est, minus[0])
+        verdict = None              # True ok / False reversed / None unrecognised
+        cellset = None
+        if {kp[0], km[0]} == {'value', 'read'}:
+            rd, val, vleaf = (km, kp, plus[0]) if km[0] == 'read' else (kp, km, minus[0])
+            cellset = {(rd[1], rd[2]), (rd[2], rd[1])}
+            later = [sx for sx in stores_of(cellset) if est.before(s, sx) and not est.before(sx, s)]
+            earlier = [sx for sx in stores_of(cellset) if est.before(sx, s)]
+            hit = [sx for sx in later if isinstance(sx, ast.Assign) and _value_equal(est, vleaf, sx.value)]
+            if hit and not earlier and row in (rd[1], rd[2]):
+                verdict = km[0] == 'read'
+        elif {kp[0], km[0]} == {'read', 'saved'}:
+            rd, sv = (kp, km) if kp[0] == 'read' else (km, kp)
+            cellset = {(rd[1], rd[2]), (rd[2], rd[1])}
+            if (sv[1], sv[2]) in cellset and row in (rd[1], rd[2]):
+                site = sv[3]
+                earlier = [sx for sx in stores_of(cellset) if est.before(sx, s)]
+                if earlier and all(est.before(site, sx) and not est.before(sx, site) for sx in earlier) and fi.cfg.dominates(site, s):
+                    verdict = kp[0] == 'read'
+        elif {kp[0], km[0]} == {'value', 'saved'}:
+            # old value saved first, cell stored, then R[p] += new - saved
+            sv, vleaf = (km, plus[0]) if km[0] == 'saved' else (kp, minus[0])
+            cellset = {(sv[1], sv[2]), (sv[2], sv[1])}
+            site = sv[3]
+            sx_all = [sx for sx in stores_of(cellset) if est.before(sx, s) or est.before(s, sx)]
+            hit = [sx for sx in sx_all if isinstance(sx, ast.Assign) and _value_equal(est, vleaf, sx.value)]
+            if hit and row in (sv[1], sv[2]) and all(est.before(site, sx) and not est.before(sx, site) for sx in sx_all) and \
+                    fi.cfg.dominates(site, s):
+                verdict = km[0] == 'saved'
+        if verdict is None:
+            unrec += 1
+            o.missing(rule, 'cannot relate the update %s to a store into a cell of row %s of `%s`' % (u(s)[:80], row, X))
+            continue
+        if verdict:
+            acc.append((row, cellset, s))
+            o.check(True, rule, s, 'R[p] += new - old for the cell of row p that is stored into', '',
+                    construct='%s: running sum of a row adjusted by new - old' % q)
+        else:
+            o.check(False, rule, s, '',
+                    '%s adjusts the running row sum %s[%s] by (old - new) instead of (new - old) for the cell it stores into: '
+                    'from then on %s != rowsum(%s), the later updates of the sweep read wrong row sums (the quadratic coefficients '
+                    'change sign and the estimator fails its assertion or stores nan) and the returned populations %s / sum(%s) are not '
+                    'the stationary vector of T = X / rowsum(X)' % (q, R, row, R, X, R, R),
+                    construct='%s: running sum of a row adjusted by old - new' % q)
+            acc.append((row, cellset, s))
+    # any other rebinding of R inside the function (R += vec, R = f(...)) is an update the rule does not read
+    odd_defs += sum(1 for a in walk_local(est.fn) if isinstance(a, (ast.AugAssign, ast.AnnAssign)) and isinstance(a.target, ast.Name) and a.target.id == R)
+    unrec += odd_defs
+    for s, p, r in xs:
+        if any(row == p and (p, r) in cs for row, cs, _ in acc):
+            continue
+        if any(est.before(s, d) and fi.cfg.postdominates(d, s) for d in rederive):
+            continue                # the row sums are re-derived from X before anything reads them
+        if unrec:
+            o.missing(rule, 'no recognised update of %s[%s] for the store %s' % (R, p, u(s)[:80]))
+            continue
+        o.check(False, rule, s, '',
+                '%s stores a new value into %s[%s, %s] but does not adjust the running row sum %s[%s] by (new - old): %s != rowsum(%s) '
+                'afterwards, so the rest of the sweep works with stale row sums and the populations %s / sum(%s) that are returned are not '
+                'rowsum(X) / sum(X) - exact only at a fixed point of the iteration (not when max_iter is reached or the last sweep still '
+                'moved X)' % (q, X, p, r, R, p, R, X, R, R),
+                construct='%s: store into a cell of the symmetric matrix without the matching running-sum update' % q)
+    # --- the two cells of a pair are two different cells
+    seen = set()
+    for s, p, r in xs:
+        if p == r or (r, p) in seen or (p, r) in seen:
+            continue
+        seen.add((p, r))
+        if not (p.isidentifier() and r.isidentifier()):
+            continue
+        dv = _distinct_indices(est, p, r, s)
+        if dv is None:
+            o.missing(rule, 'cannot show that the indices %s and %s of the paired store %s differ' % (p, r, u(s)[:60]))
+            continue
+        o.check(dv, rule, s, 'the pair loop visits q != p only: the two cells of a pair are different cells',
+                'the loop over one of the indices %s, %s starts AT the other, so the pair update also runs for %s == %s: one diagonal cell is '
+                'then stored once but both %s[%s] and %s[%s] (the same element) are adjusted by new - old, i.e. the row sum moves by twice the '
+                'change of the cell and %s != rowsum(%s) until the next re-derivation' % (p, r, r, p, R, p, R, r, R, X),
+                construct='%s: pair loop excludes the diagonal' % q if dv else '%s: pair loop includes q == p' % q)
+
+
+# --- sign abstraction ---------------------------------------------------------
+_NEG, _ZERO, _POS = 1, 2, 4
+_ANY, _NONNEG, _NONPOS = 7, 6, 3
+
+
+def _sneg(m):
+    return (_POS if m & _NEG else 0) | (_ZERO if m & _ZERO else 0) | (_NEG if m & _POS else 0)
+
+
+def _smul(a, b):
+    out = 0
+    for x in (_NEG, _ZERO, _POS):
+        for y in (_NEG, _ZERO, _POS):
+            if a & x and b & y:
+                out |= _ZERO if _ZERO in (x, y) else (_POS if x == y else _NEG)
+    return out
+
+
+def _sadd(a, b):
+    if a == _ZERO:
+        return b
+    if b == _ZERO:
+        return a
+    if not (a & _NEG or b & _NEG):
+        return _POS if (a == _POS or b == _POS) else _NONNEG
+    if not (a & _POS or b & _POS):
+        return _NEG if (a == _NEG or b == _NEG) else _NONPOS
+    return _ANY
+
+
+def _sname(m):
+    return {_POS: '> 0', _NONNEG: '>= 0', _ZERO: '== 0', _NONPOS: '<= 0', _NEG: '< 0', _NEG | _POS: '!= 0'}.get(m, 'of unknown sign')
+
+
+_SQRT = ('np.sqrt', 'math.sqrt', 'numpy.sqrt', 'sqrt')
+
+
+class _Signs:
+    """Signs of scalar expressions of the estimator at one statement, under
+    the invariants of the iteration and the branch conditions that dominate
+    the statement.  `issues` collects ('bad' | 'unknown', text)."""
+
+    def __init__(self, est, st, depth=3):
+        self.est, self.st, self.depth = est, st, depth
+        self.fi = est.fi
+        self.issues = []
+        self.facts, self.mentions = self._facts()
+
+    # -- branch conditions
+    def _stable(self, g, e):
+        fi = self.fi
+        for n in ast.walk(e):
+            if isinstance(n, ast.Name) and isinstance(n.ctx, ast.Load):
+                if fi.rd.defs_at(g, n.id) != fi.rd.defs_at(self.st, n.id):
+                    return False
+                for ms in fi._mutated_in_place(n.id):
+                    if ms is self.st:
+                        continue
+                    if fi.cfg.reachable(g, ms) and fi.cfg.reachable(ms, self.st, avoiding=[g]):
+                        return False
+        return True
+
+    def _facts(self):
+        from ..cfg import Assume
+        from ..patterns import Cmp, conjuncts
+        fi = self.fi
+        facts, mentions = {}, []
+        for g in fi.cfg.nodes:
+            if not (isinstance(g, Assume) and self.st is not None and fi.cfg.dominates(g, self.st)):
+                continue
+            cj = conjuncts(g.test, g.polarity)
+            read = set()
+            for c in (cj or []):
+                if isinstance(c, Cmp):
+                    for x, other, op in ((c.lhs, c.rhs, c.op), (c.rhs, c.lhs, c.flipped().op)):
+                        k = const_value(other)
+                        if not isinstance(k, (int, float)) or isinstance(k, bool) or isinstance(x, ast.Constant):
+                            continue
+                        m = _ANY
+                        if k == 0:
+                            m = {ast.Lt: _NEG, ast.LtE: _NONPOS, ast.Gt: _POS, ast.GtE: _NONNEG, ast.Eq: _ZERO, ast.NotEq: _NEG | _POS}.get(op, _ANY)
+                        elif k > 0:
+                            m = {ast.Gt: _POS, ast.GtE: _POS, ast.Eq: _POS}.get(op, _ANY)
+                        else:
+                            m = {ast.Lt: _NEG, ast.LtE: _NEG, ast.Eq: _NEG}.get(op, _ANY)
+                        try:
+                            ex = fi.expand(x)
+                        except Exception:
+                            continue
+                        if m != _ANY and self._stable(g, ex):
+                            facts[u(ex)] = facts.get(u(ex), _ANY) & m
+                            read.add(id(c))
+                        else:
+                            mentions.append(u(ex))
+                elif isinstance(c, tuple) and c[0] == 'expr' and not isinstance(c[1], ast.Call):
+                    try:
+                        ex = fi.expand(c[1])
+                    except Exception:
+                        continue
+                    if self._stable(g, ex):
+                        facts[u(ex)] = facts.get(u(ex), _ANY) & ((_NEG | _POS) if c[2] else _ZERO)
+                        read.add(id(c))
+                    else:
+                        mentions.append(u(ex))
+            if cj is None or any(id(c) not in read for c in cj):
+                try:
+                    mentions.append(u(fi.expand(g.test)))
+                except Exception:
+                    mentions.append(u(g.test))
+        return facts, mentions
+
+    # -- leaves with a role
+    def _tag(self, e):
+        """('X', p, q) / ('C', p, q) / ('R', p) / ('Crs', p) for an element of
+        the iterate, the counts, the running sums, the row sums of the counts."""
+        est, fi = self.est, self.fi
+        if isinstance(e, ast.Subscript):
+            if isinstance(e.slice, ast.Tuple) and len(e.slice.elts) == 2 and all(_plain_index(i) for i in e.slice.elts):
+                p, q = u(e.slice.elts[0]), u(e.slice.elts[1])
+                if isinstance(e.value, ast.Name) and e.value.id == est.X:
+                    return ('X', p, q)
+                if _est_counts(fi, e.value, est.P, self.st):
+                    return ('C', p, q)
+            elif _plain_index(e.slice):
+                p = u(e.slice)
+                if isinstance(e.value, ast.Name) and e.value.id in (est.R, est.R_aux):
+                    return ('R', p)
+                if _est_rowsums(fi, e.value, est.P, self.st):
+                    return ('Crs', p)
+                if self._is_rowsum_of_X(e.value):
+                    return ('R', p)
+        return None
+
+    def _is_rowsum_of_X(self, e):
+        b = _pm(_RS, e)
+        return b is not None and isinstance(b['_X'], ast.Name) and b['_X'].id == self.est.X and _int_of(b['_A']) in (1, -1, 0, -2)
+
+    def zero_witness(self, e):
+        """A factor of `e` that is zero for admissible input: a raw count, a
+        sum of raw counts, a cell of the iterate (no counts between a pair of
+        states of a strongly connected chain with >= 3 states is admissible)."""
+        e = _strip_factor(e)
+        t = self._tag(e)
+        if t is not None and t[0] in ('C', 'X'):
+            return u(e)
+        if isinstance(e, ast.BinOp) and isinstance(e.op, ast.Mult):
+            return self.zero_witness(e.left) or self.zero_witness(e.right)
+        if isinstance(e, ast.BinOp) and isinstance(e.op, ast.Add):
+            lv = _signed_leaves(e)
+            if all(sg > 0 and (self._tag(x) or ('',))[0] in ('C', 'X') for sg, x in lv):
+                return u(e)
+        return None
+
+    # -- the abstraction
+    def sign(self, e):
+        m = self._sign(e)
+        f = self.facts.get(u(e))
+        return m & f if f is not None else m
+
+    def _leaves(self, e, sg, out, root=True):
+        """Signed summands; a sub-sum that a branch condition speaks about stays one summand."""
+        if isinstance(e, ast.BinOp) and isinstance(e.op, (ast.Add, ast.Sub)) and (root or u(e) not in self.facts):
+            self._leaves(e.left, sg, out, False)
+            self._leaves(e.right, sg if isinstance(e.op, ast.Add) else -sg, out, False)
+        elif isinstance(e, ast.UnaryOp) and isinstance(e.op, (ast.USub, ast.UAdd)) and (root or u(e) not in self.facts):
+            self._leaves(e.operand, -sg if isinstance(e.op, ast.USub) else sg, out, False)
+        else:
+            out.append((sg, e))
+        return out
+
+    def _root_dominates(self, e):
+        """sqrt(t**2 + Q) +- t  with Q >= 0  is >= 0."""
+        if not (isinstance(e, ast.BinOp) and isinstance(e.op, (ast.Add, ast.Sub))):
+            return False
+        for root, other in ((e.left, e.right), (e.right, e.left)):
+            if root is e.right and isinstance(e.op, ast.Sub):
+                continue                    # t - sqrt(...)
+            if not (isinstance(root, ast.Call) and call_name(root) in _SQRT and len(root.args) == 1):
+                continue
+            t = other.operand if isinstance(other, ast.UnaryOp) and isinstance(other.op, (ast.USub, ast.UAdd)) else other
+            lv = self._leaves(root.args[0], 1, [])
+            sq = [x for sg, x in lv if sg > 0 and (
+                (isinstance(x, ast.BinOp) and isinstance(x.op, ast.Pow) and _int_of(x.right) == 2 and u(x.left) == u(t)) or
+                (isinstance(x, ast.BinOp) and isinstance(x.op, ast.Mult) and u(x.left) == u(t) and u(x.right) == u(t)))]
+            if len(sq) != 1:
+                continue
+            rest = [(sg, x) for sg, x in lv if x is not sq[0]]
+            if all(not ((self.sign(x) if sg > 0 else _sneg(self.sign(x))) & _NEG) for sg, x in rest):
+                return True
+        return False
+
+    def _sum(self, e):
+        if self._root_dominates(e):
+            return (self._sum_leaves(e) & _NONNEG) or _NONNEG
+        return self._sum_leaves(e)
+
+    def _sum_leaves(self, e):
+        lv = self._leaves(e, 1, [])
+        tags = [(sg, x, self._tag(x)) for sg, x in lv]
+        used, parts = set(), []
+        for k, (sg, x, t) in enumerate(tags):
+            if k in used or t is None or t[0] not in ('X', 'C'):
+                continue
+            # an element of row p is dominated by the row sum of row p (the iterate is symmetric: X[q, p] too)
+            for k2, (sg2, x2, t2) in enumerate(tags):
+                if k2 in used or k2 == k or t2 is None or sg2 != -sg:
+                    continue
+                if (t[0] == 'X' and t2[0] == 'R' and t2[1] in (t[1], t[2])) or (t[0] == 'C' and t2[0] == 'Crs' and t2[1] == t[1]):
+                    used.update((k, k2))
+                    parts.append(_NONNEG if sg2 > 0 else _NONPOS)
+                    break
+        for k, (sg, x, t) in enumerate(tags):
+            if k not in used:
+                m = self.sign(x)
+                parts.append(m if sg > 0 else _sneg(m))
+        out = _ZERO
+        for m in parts:
+            out = _sadd(out, m)
+        return out
+
+    def _divisor(self, den):
+        d = self.sign(den)
+        if d & _ZERO:
+            w = self.zero_witness(den)
+            t = u(den)
+            mentioned = any(t in mt or (w is not None and w in mt) for mt in self.mentions)
+            if w is not None and not mentioned:
+                self.issues.append(('bad', 'divides by `%s`, which is zero whenever %s is (no counts there: admissible) and is not tested against zero '
+                                    'on the way: the quotient is inf/nan' % (t[:60], w[:40])))
+            else:
+                self.issues.append(('unknown', 'divisor `%s` is not provably non-zero' % t[:60]))
+            d &= ~_ZERO
+            d = d or (_NEG | _POS)
+        return d
+
+    def _sign(self, e):
+        est, fi = self.est, self.fi
+        if isinstance(e, ast.Constant):
+            v = e.value
+            if isinstance(v, (int, float)) and not isinstance(v, bool):
+                return _POS if v > 0 else _NEG if v < 0 else _ZERO
+            return _ANY
+        t = self._tag(e)
+        if t is not None:
+            return _POS if t[0] == 'Crs' else _NONNEG
+        if isinstance(e, ast.Name):
+            if e.id in (est.X, est.R, est.R_aux):
+                return _NONNEG
+            return self._name(e)
+        if _est_rowsums(fi, e, est.P, self.st):
+            return _POS
+        if self._is_rowsum_of_X(e) or _est_counts(fi, e, est.P, self.st):
+            return _NONNEG
+        if isinstance(e, ast.UnaryOp) and isinstance(e.op, (ast.USub, ast.UAdd)):
+            m = self.sign(e.operand)
+            return _sneg(m) if isinstance(e.op, ast.USub) else m
+        if isinstance(e, ast.BinOp):
+            if isinstance(e.op, (ast.Add, ast.Sub)):
+                return self._sum(e)
+            if isinstance(e.op, ast.Mult):
+                if u(e.left) == u(e.right):
+                    return _NONNEG if self.sign(e.left) & _ZERO else _POS      # t * t
+                return _smul(self.sign(e.left), self.sign(e.right))
+            if isinstance(e.op, ast.Div):
+                return _smul(self.sign(e.left), self._divisor(e.right))
+            if isinstance(e.op, ast.Pow):
+                k = const_value(e.right)
+                b = self.sign(e.left)
+                if isinstance(k, int) and not isinstance(k, bool) and k > 0 and k % 2 == 0:
+                    return _POS if not b & _ZERO else _NONNEG
+                if k == 0.5:
+                    return self._sqrt(e.left)
+                return b if not b & _NEG else _ANY
+            return _ANY
+        if isinstance(e, ast.Call):
+            cn = call_name(e) or ''
+            if cn in _SQRT and len(e.args) == 1:
+                return self._sqrt(e.args[0])
+            if cn in ('abs', 'np.abs', 'np.fabs', 'np.absolute') and len(e.args) == 1:
+                return _NONNEG if self.sign(e.args[0]) & _ZERO else _POS
+            if cn in ('float', 'np.float64', 'np.double') and len(e.args) == 1 and not e.keywords:
+                return self.sign(e.args[0])
+            if cn in ('np.divide', 'np.true_divide') and len(e.args) == 2 and not e.keywords:
+                return _smul(self.sign(e.args[0]), self._divisor(e.args[1]))
+            return _ANY
+        if isinstance(e, ast.IfExp):
+            return self.sign(e.body) | self.sign(e.orelse)
+        return _ANY
+
+    def _sqrt(self, a):
+        m = self.sign(a)
+        if m & _NEG:
+            if not m & _POS:
+                self.issues.append(('bad', 'takes the square root of `%s`, which is %s for every admissible input (nan as soon as it is non-zero)'
+                                    % (u(a)[:70], _sname(m))))
+            else:
+                self.issues.append(('unknown', 'radicand `%s` is not provably non-negative' % u(a)[:70]))
+        return _POS if m == _POS else _NONNEG
+
+    def _name(self, n):
+        """A name that is not a temporary: union over its reaching definitions,
+        each evaluated where it is made."""
+        fi = self.fi
+        if self.depth <= 0:
+            return _ANY
+        try:
+            defs = fi.rd.defs_at(self.st, n.id) if n not in fi.stmt_of else fi.defs_of_use(n)
+        except Exception:
+            return _ANY
+        if not defs or 'UNBOUND' in defs or 'PARAM' in defs:
+            return _ANY
+        out = 0
+        for d in defs:
+            v = fi.def_value(d, n.id)
+            if v is None:
+                return _ANY
+            sub = _Signs(self.est, d, self.depth - 1)
+            try:
+                out |= sub.sign(fi.expand(v))
+            except RecursionError:
+                return _ANY
+            self.issues += sub.issues
+        return out or _ANY
+
+
+def _d7_nonneg(est, cells):
+    """Every value stored into the symmetric matrix is >= 0 and finite."""
+    rule = 'C04.D4.mle-nonneg'
+    o, fi, X, q = est.o, est.fi, est.X, est.qual
+    n = 0
+    for s, t, p, r in cells:
+        if not isinstance(s, ast.Assign):
+            o.missing(rule, 'store into the symmetric matrix in a form the sign analysis does not read: %s' % u(s)[:80])
+            continue
+        n += 1
+        sg = _Signs(est, s)
+        try:
+            v = s.value
+            m = sg.sign(v if isinstance(v, ast.Name) and fi.temp_value(v) is None else fi.expand(v))
+        except RecursionError:
+            o.missing(rule, 'expression too deep: %s' % u(s)[:80])
+            continue
+        where = 'diagonal' if p == r else 'off-diagonal'
+        bad = [txt for k, txt in sg.issues if k == 'bad']
+        unknown = [txt for k, txt in sg.issues if k == 'unknown']
+        if bad:
+            o.check(False, rule, s, '', 'the value %s stores into the %s cell %s[%s, %s] %s; X then holds nan/inf, T = X / rowsum(X) is not a '
+                    'stochastic matrix and the estimator fails its final assertion instead of returning a model' % (q, where, X, p, r, bad[0]),
+                    construct='%s: value stored into a %s cell of the symmetric matrix: %s' % (q, where, bad[0].split(',')[0][:80]))
+        elif unknown:
+            o.missing(rule, 'value stored by %s: %s' % (u(s)[:60], unknown[0]))
+        elif not m & _NEG:
+            o.check(True, rule, s, 'the stored value is provably >= 0 and finite under C >= 0, rowsum(C)[p] >= C[p, q], X >= 0, rowsum(X)[p] >= X[p, q]',
+                    '', construct='%s: value stored into a %s cell is >= 0' % (q, where))
+        elif not m & _POS:
+            o.check(False, rule, s, '', 'the value %s stores into the %s cell %s[%s, %s] is %s under the invariants of the iteration '
+                    '(C >= 0, rowsum(C)[p] >= C[p, q], X >= 0, rowsum(X)[p] >= X[p, q]): X gets negative entries, so rows of '
+                    'T = X / rowsum(X) are no probability distributions (and the coefficients of the next pair update change sign)'
+                    % (q, where, X, p, r, _sname(m)), construct='%s: value stored into a %s cell is <= 0' % (q, where))
+        else:
+            o.missing(rule, 'cannot bound the sign of the value stored by %s' % u(s)[:80])
+    est.ck.floor(rule, n, 1, 'store into a cell of the symmetric matrix in %s' % q)
+
+
+def _cmp_cases(ml, op, mr):
+    """Truth of `l op r` per pair of signs: list of ((sl, sr), 'T' | 'F' | 'M')."""
+    order = {_NEG: -1, _ZERO: 0, _POS: 1}
+    out = []
+    for x in (_NEG, _ZERO, _POS):
+        for y in (_NEG, _ZERO, _POS):
+            if not (ml & x and mr & y):
+                continue
+            a, b = order[x], order[y]
+            if a != b:
+                lt = a < b
+                v = {ast.Lt: lt, ast.LtE: lt, ast.Gt: not lt, ast.GtE: not lt, ast.Eq: False, ast.NotEq: True}.get(op)
+            elif a == 0:
+                v = {ast.Lt: False, ast.LtE: True, ast.Gt: False, ast.GtE: True, ast.Eq: True, ast.NotEq: False}.get(op)
+            else:
+                v = None
+            out.append(((x, y), 'M' if v is None else 'T' if v else 'F'))
+    return out
+
+
+def _d7_asserts(est):
+    """No assert of the estimator rejects what the quantifier admits or what
+    the construction of the result guarantees."""
+    rule = 'C04.D4.mle-asserts'
+    from ..patterns import Cmp, conjuncts
+    o, fi, q = est.o, est.fi, est.qual
+    n = 0
+    for s in walk_local(est.fn):
+        if not isinstance(s, ast.Assert):
+            continue
+        for c in (conjuncts(s.test, True) or []):
+            if isinstance(c, tuple) and c[0] == 'expr' and c[2]:
+                e = c[1]
+                inner = None
+                if isinstance(e, ast.Call) and isinstance(e.func, ast.Attribute) and e.func.attr == 'all' and not e.args and not e.keywords:
+                    inner = e.func.value
+                elif isinstance(e, ast.Call) and call_name(e) in ('np.all', 'all') and len(e.args) == 1 and not e.keywords:
+                    inner = e.args[0]
+                if isinstance(inner, ast.Compare) and len(inner.ops) == 1:
+                    c = Cmp(inner.left, type(inner.ops[0]), inner.comparators[0])
+                elif isinstance(e, ast.Call) and call_name(e) in ('np.allclose', 'np.isclose') and len(e.args) >= 2 and const_value(e.args[1]) == 1:
+                    a = e.args[0]
+                    b = _pm(['_M.sum(axis=_A)', '_M.sum(_A)', '_M.sum()'], a)
+                    if b is None or not isinstance(b['_M'], ast.Name):
+                        continue
+                    if b['_M'].id == est.T_name or (est.ret is not None and u(fi.expand(b['_M'])) == u(fi.expand(est.ret.value.elts[0]))):
+                        n += 1
+                        ax = _int_of(b['_A']) if '_A' in b else None
+                        o.check(ax in (1, -1), rule, s, 'the final check asks for ROW sums of T equal to one, which T = X / rowsum(X) guarantees',
+                                '%s asserts that the sums of T over axis %s are one; T = X / rowsum(X)[:, None] has ROW sums one, its column sums '
+                                'are one only for doubly stochastic T, so the estimator raises AssertionError for (almost) every admissible count '
+                                'matrix instead of returning the model' % (q, 'None (all entries)' if ax is None else ax),
+                                construct='%s: final assertion on the row sums of T' % q if ax in (1, -1) else
+                                '%s: final assertion on sums of T that are not its row sums' % q)
+                    continue
+                else:
+                    continue
+            if not isinstance(c, Cmp) or c.op not in (ast.Lt, ast.LtE, ast.Gt, ast.GtE, ast.Eq, ast.NotEq):
+                continue
+            sg = _Signs(est, s)
+            try:
+                el, er = fi.expand(c.lhs), fi.expand(c.rhs)
+                ml, mr = sg.sign(el), sg.sign(er)
+            except RecursionError:
+                continue
+            if ml == _ANY or mr == _ANY:
+                continue            # an operand the abstraction says nothing about: not decided
+            n += 1
+            cases = _cmp_cases(ml, c.op, mr)
+            truth = {k: v for k, v in cases}
+            nonzero = [v for (x, y), v in cases if not (x == _ZERO and y == _ZERO)]
+            text = '%s %s %s' % (u(c.lhs)[:50], c.rel, u(c.rhs)[:50])
+            if all(v == 'T' for _, v in cases):
+                o.check(True, rule, s, 'the assertion follows from the invariants of the iteration (left side %s, right side %s)'
+                        % (_sname(ml), _sname(mr)), '', construct='%s: assertion implied by the invariants' % q)
+            elif nonzero and all(v == 'F' for v in nonzero):
+                o.check(False, rule, s, '', '%s asserts `%s`, but under the quantifier and the invariants of the iteration (non-negative counts, '
+                        'positive row sums, X >= 0, rowsum(X)[p] >= X[p, q]) the left side is %s and the right side is %s: the assertion fails '
+                        'for every admissible count matrix%s and the builder raises AssertionError instead of returning a model'
+                        % (q, text, _sname(ml), _sname(mr), ' (except when both sides vanish)' if truth.get((_ZERO, _ZERO)) == 'T' else ''),
+                        construct='%s: assertion contradicts the invariants (left %s, right %s)' % (q, _sname(ml), _sname(mr)))
+            elif truth.get((_ZERO, _ZERO)) == 'F' and all(v == 'T' for v in nonzero):
+                wl, wr = sg.zero_witness(el), sg.zero_witness(er)
+                common = wl is not None and wr is not None and wl == wr
+                if common:
+                    o.check(False, rule, s, '', '%s asserts `%s` with a STRICT comparison although both sides carry the factor %s, which is zero '
+                            'whenever the two states of the pair have no counts between them (admissible: any strongly connected chain with >= 3 '
+                            'states that is not fully connected): both sides are then 0 and `0 %s 0` fails, so the builder raises AssertionError'
+                            % (q, text, wl[:40], c.rel), construct='%s: strict assertion between two quantities that vanish together' % q)
+    return n
+
+
+def d7_estimator(ck, rel, qual):
+    from ..core import AnalysisIncomplete
+    try:
+        mod = ck.repo.mod(rel)
+        fn = mod.func(qual)
+    except AnalysisIncomplete as e:
+        ck.missing('C04.D6.mle-result', 'estimator %s not found (%s)' % (qual, e))
+        return
+    ck.analysed(mod, fn)
+    est = _Estimator(ck, mod, fn, qual)
+    _d7_result(est)
+    if est.X is None or est.ret is None:
+        return
+    cells = _d7_symmetric(est)
+    if est.R is None and est.R_aux is not None:
+        est.R = est.R_aux           # maintained row sums the update formulas read, although pi is recomputed from X
+    _d7_running(est, cells)
+    _d7_nonneg(est, cells)
+    _d7_asserts(est)
+
+
+# ---------------------------------------------------------------------------
+# D6 (dispatch): the call eq_probs makes reaches a solver that can take T
+#
+# normalize() hands the row-normalised matrix - an ndarray or any of the sparse
+# containers, of any size - to eq_probs, which calls eigenspectrum with CONSTANT
+# n_eigs / left.  With those constants substituted every branch condition of
+# eigenspectrum is a function of two things only: is T sparse, and how the number
+# of states N compares with the integer thresholds in the code.  That is a finite
+# abstract domain ({sparse, dense} x the intervals between the thresholds); for
+# every point of it the path the call takes is determined, and it must
+#   * not end in `raise` (argument validation that rejects eq_probs' own arguments),
+#   * apply sparse-only methods (.toarray/.tocsr/...) only to a sparse T,
+#   * hand the dense LAPACK solver a dense matrix,
+#   * ask ARPACK for fewer than N - 1 eigenpairs of a sparse matrix.
+
+_SPARSE_ONLY = ('toarray', 'todense', 'tocsr', 'tocsc', 'tocoo', 'tolil', 'todok', 'asfptype', 'tobsr', 'todia')
+
+
+def _input_container(e, T):
+    """`e` is the parameter T up to transposition (still in the caller's container)."""
+    while True:
+        if isinstance(e, ast.Attribute) and e.attr == 'T':
+            e = e.value
+        elif isinstance(e, ast.Call) and isinstance(e.func, ast.Attribute) and e.func.attr in ('transpose', 'copy') and not e.args and not e.keywords:
+            e = e.func.value
+        else:
+            break
+    return isinstance(e, ast.Name) and e.id == T
+
+
+class _Subst(ast.NodeTransformer):
+    def __init__(self, table):
+        self.table = table
+
+    def visit_Name(self, n):
+        if n.id in self.table and isinstance(n.ctx, ast.Load):
+            return ast.copy_location(ast.Constant(value=self.table[n.id]), n)
+        return n
+
+
+def _lin_value(e, T, N):
+    from .msm_common import linear
+    g = linear(e, T)
+    if g is None or any(k not in (1, 'N') for k in g):
+        return None
+    return g.get(1, 0) + g.get('N', 0) * N
+
+
+def _eval_cond(e, T, sp, N):
+    """Three-valued truth of a branch condition of eigenspectrum for a T that is
+    sparse (sp) / dense and has N states; the constant arguments were substituted."""
+    from .msm_common import _never_sparse
+    if isinstance(e, ast.BoolOp):
+        vs = [_eval_cond(v, T, sp, N) for v in e.values]
+        if isinstance(e.op, ast.And):
+            return False if any(v is False for v in vs) else None if any(v is None for v in vs) else True
+        return True if any(v is True for v in vs) else None if any(v is None for v in vs) else False
+    if isinstance(e, ast.UnaryOp) and isinstance(e.op, ast.Not):
+        v = _eval_cond(e.operand, T, sp, N)
+        return None if v is None else not v
+    if isinstance(e, ast.Constant):
+        return bool(e.value)
+    if isinstance(e, ast.Compare) and len(e.ops) == 1:
+        l, r, op = e.left, e.comparators[0], e.ops[0]
+        if isinstance(op, (ast.Is, ast.IsNot)):
+            if isinstance(l, ast.Constant) and isinstance(r, ast.Constant):
+                same = l.value is r.value or (type(l.value) is type(r.value) and l.value == r.value and isinstance(l.value, (int, bool, type(None))))
+                return same if isinstance(op, ast.Is) else not same
+            return None
+        if any(isinstance(x, ast.Constant) and x.value is None for x in (l, r)):
+            return None             # ordering against None raises TypeError: not modelled
+        a, b = _lin_value(l, T, N), _lin_value(r, T, N)
+        if a is None or b is None:
+            return None
+        return {ast.Lt: a < b, ast.LtE: a <= b, ast.Gt: a > b, ast.GtE: a >= b, ast.Eq: a == b, ast.NotEq: a != b}.get(type(op))
+    if isinstance(e, ast.Call) and (call_name(e) or '').split('.')[-1] in ('issparse', 'isspmatrix') and len(e.args) == 1 and not e.keywords:
+        a = e.args[0]
+        if _never_sparse(a):
+            return False
+        if _input_container(a, T):
+            return sp
+        inner = strip_conversions(a)
+        if inner is not a and _input_container(inner, T) and isinstance(a, ast.Call) and isinstance(a.func, ast.Attribute) and \
+                a.func.attr in ('tocsr', 'tocsc', 'tocoo', 'tolil', 'asfptype'):
+            return True if sp else None
+        return None
+    if isinstance(e, ast.Call) and call_name(e) == 'isinstance' and len(e.args) == 2 and _input_container(e.args[0], T):
+        t = u(e.args[1])
+        if t in ('np.ndarray', 'numpy.ndarray'):
+            return not sp
+        if t in ('scipy.sparse.spmatrix', 'sparse.spmatrix', 'spmatrix'):
+            return sp
+    return None
+
+
+def _thresholds(nodes, T):
+    from .msm_common import linear
+    out = set()
+    for e in nodes:
+        for c in ast.walk(e):
+            if isinstance(c, ast.Compare) and len(c.ops) == 1:
+                a, b = linear(c.left, T), linear(c.comparators[0], T)
+                if a is None or b is None:
+                    continue
+                d = {k: a.get(k, 0) - b.get(k, 0) for k in set(a) | set(b)}
+                if set(k for k, v in d.items() if v) <= {1, 'N'} and abs(d.get('N', 0)) == 1:
+                    out.add(abs(d.get(1, 0)))
+    return out
+
+
+def d6_dispatch(ck, sigs):
+    rule = 'C04.D6.spectrum.eq-probs-dispatch'
+    from ..core import kwarg, param_default
+    mod = ck.repo.mod(TM)
+    fn, fe = mod.func('eigenspectrum'), mod.func('eq_probs')
+    F = 'eigenspectrum'
+    o = Once(ck, mod, fn, F)
+    ps = params(fn)
+    T = ps[0]
+    calls = [c for c in walk_local(fe) if isinstance(c, ast.Call) and (call_name(c) or '').split('.')[-1] == 'eigenspectrum']
+    if len(calls) != 1 or any(isinstance(a, ast.Starred) for a in calls[0].args) or any(k.arg is None for k in calls[0].keywords):
+        return o.missing(rule, 'one eigenspectrum(...) call in eq_probs with explicit arguments (found %d)' % len(calls))
+    call = calls[0]
+    consts = {}
+    for i, name in enumerate(ps[1:3], 1):
+        a = call.args[i] if len(call.args) > i else kwarg(call, name)
+        if a is None:
+            a = param_default(fn, name)
+        if not isinstance(a, ast.Constant):
+            return o.missing(rule, 'eq_probs passes `%s` for %s of eigenspectrum: not a constant' % (u(a)[:40] if a is not None else '?', name))
+        consts[name] = a.value
+    paths = paths_or_missing(ck, rule, mod, fn, F)
+    if paths is None:
+        return
+    sub = _Subst(consts)
+    import copy as _copy
+    P = []
+    for p in paths:
+        conds = [(pol, sub.visit(_copy.deepcopy(node))) for k, (pol, node) in p.conds.items() if k[0] != 'raises']
+        P.append((p, conds, sub.visit(_copy.deepcopy(p.value))))
+    th = _thresholds([n for _, conds, _ in P for _, n in conds], T)
+    Ns = sorted({n for c in th | {1, 3, 5} for n in range(c - 2, c + 3) if n >= 1})
+    shown = 'eigenspectrum(T, %s)' % ', '.join('%s=%r' % kv for kv in consts.items())
+    n_ok = 0
+    for sp in (False, True):
+        for N in Ns:
+            what = '%s T with %d state%s' % ('a sparse' if sp else 'a dense (ndarray)', N, '' if N == 1 else 's')
+            for p, conds, value in P:
+                vals = [(_eval_cond(node, T, sp, N), pol) for pol, node in conds]
+                if any(v is not None and v != pol for v, pol in vals):
+                    continue
+                sure = all(v is not None for v, _ in vals)
+                problem = None
+                if p.kind == 'raise':
+                    problem = ('raise', 'ends in `raise %s`: the validation of eigenspectrum rejects the very arguments eq_probs passes, so '
+                               'normalize(C) raises whenever populations are asked for' % u(p.value)[:60])
+                else:
+                    for x in [n for e in [value] + [n for _, n in conds] for n in ast.walk(e)]:
+                        if isinstance(x, ast.Call) and isinstance(x.func, ast.Attribute) and x.func.attr in _SPARSE_ONLY and \
+                                _input_container(x.func.value, T) and not sp:
+                            problem = ('sparse-only', 'calls `.%s()` on T itself, a method only sparse matrices have: AttributeError for an ndarray'
+                                       % x.func.attr)
+                            break
+                        if isinstance(x, ast.Call) and (call_name(x) or '').split('.')[-1] in ('eig', 'eigvals') and \
+                                'sparse' not in (call_name(x) or '') and x.args and _input_container(x.args[0], T) and sp:
+                            problem = ('dense-solver', 'hands the sparse matrix itself to the dense solver %s, which cannot take a scipy sparse matrix'
+                                       % call_name(x))
+                            break
+                        if isinstance(x, ast.Call) and (call_name(x) or '').split('.')[-1] == 'eigs' and sp:
+                            A = (x.args + [k.value for k in x.keywords if k.arg == 'A'])[:1]
+                            kk = x.args[1] if len(x.args) > 1 else kwarg(x, 'k')
+                            if A and kk is not None and _input_container(strip_conversions(A[0]), T):
+                                kv = _lin_value(kk, T, N)
+                                if kv is not None and kv >= N - 1:
+                                    problem = ('arpack-k', 'asks ARPACK for k = %d eigenpairs of a sparse %d x %d matrix: scipy.sparse.linalg.eigs '
+                                               'raises TypeError for k >= N - 1' % (kv, N, N))
+                                    break
+                if problem is None:
+                    n_ok += sure
+                    continue
+                if not sure:
+                    o.missing(rule, 'for %s a path of %s that may be taken %s, but some of its conditions are not decided: %s'
+                              % (what, shown, problem[1][:80], [u(n)[:50] for (v, _), (_, n) in zip(vals, conds) if v is None][:3]))
+                    continue
+                cs = ' and '.join(('' if pol else 'not ') + '(%s)' % u(n)[:60] for pol, n in conds)
+                o.check(False, rule, p.stmt, '', 'for %s the call %s that eq_probs makes takes the path [%s], which %s; the stationary vector '
+                        'of normalize() must be delivered for dense input and every sparse container of every size'
+                        % (what, shown, cs[:300], problem[1]),
+                        construct='eq_probs -> eigenspectrum, %s input: %s' % ('sparse' if sp else 'dense', problem[0]))
+    if n_ok:
+        o.check(True, rule, None, 'for dense and sparse T of every size class (N around %s) the call %s reaches a solver that accepts T and '
+                'never a raise' % (sorted(th), shown), '', construct='eq_probs -> eigenspectrum: dispatch over container x size')
+    ck.floor(rule, n_ok, 1, 'decided (container, size) points of the eq_probs call')
+
+
 def d6_normalize(ck, mod, sigs):
     rule = 'C04.D6.normalize'
     fn, aps = builder_paths(ck, mod, 'normalize', sigs)
@@ -1216,7 +2533,9 @@ def check(ck):
     _guarded(ck, 'C04.D6.normalize', d6_normalize, mod, sigs)
     _guarded(ck, 'C04.D4.zero-denominator', d4_estimator, BU, '_prinz_mle_py', True)
     _guarded(ck, 'C04.D4.zero-denominator', d4_estimator, LM, '_mle_prinz_dense', False)
+    _guarded(ck, 'C04.D6.mle-result', d7_estimator, BU, '_prinz_mle_py')
     _guarded(ck, 'C04.D6.spectrum', check_spectrum, 'C04.D6')
+    _guarded(ck, 'C04.D6.spectrum.eq-probs-dispatch', d6_dispatch, sigs)
     check_no_arg_mutation(ck, 'C04.D2.inputs-unmodified', [
         (BU, 'mle'), (BU, 'transpose'), (BU, 'normalize'),
         (BU, '_apply_prior_counts'), (BU, '_row_normalize'),
